@@ -99,7 +99,7 @@ def handle (parts : List String) : String :=
     -- the JSON encoder with Line and Indent options set (same acceptance, different writes)
     match parseToks toks with
     | some ts =>
-      "M=" ++ showFlags (runFlags (JsonEnc.step ⟨some [10], [9]⟩ noFloat) JsonEnc.init ts) ++ " S=" ++ showFlags (recFlags .json [] ts)
+      "M=" ++ showFlags (runFlags (JsonEnc.step ⟨some [10], [32, 32]⟩ noFloat) JsonEnc.init ts) ++ " S=" ++ showFlags (recFlags .json [] ts)
     | none => "bad-op"
   | ["acc", f, toks] =>
     match parseFmt f, parseToks toks with
@@ -141,7 +141,7 @@ def handle (parts : List String) : String :=
       let mode : WMode := match md.toList.head? with | some 'e' => .err | some 's' => .short | _ => .both
       let flt : WFault := ⟨k, mode, md.endsWith "1"⟩
       let line : Option Bytes := if ln == "nil" then none else parseHex ln
-      let r := if f == "cbor" then runFaulty CborEnc.step (some flt) CborEnc.init {} ts
+      let r := if f == "cbor" || f == "cborw" then runFaulty CborEnc.step (some flt) CborEnc.init {} ts
                else runFaulty (JsonEnc.step ⟨line, indent⟩ FloatText.jsonFloat) (some flt) JsonEnc.init {} ts
       "M=" ++ showFlags r.1 ++ " c=" ++ toString r.2
     | _, _, _ => "bad-op"
